@@ -6,6 +6,7 @@
 pub mod harness;
 mod registry;
 mod api;
+mod api_gen;
 
 use std::panic;
 
